@@ -293,7 +293,12 @@ func (c *consumerGroup) StreamDeleted(stream string, epoch uint64) error {
 	}
 
 	subscribers, ok := c.subscribers[stream]
-	if !ok {
+	if !ok || len(*subscribers) == 0 {
+		// No member subscribes to the stream (an empty heap is what is left
+		// once the last subscriber has gone), so nothing changes for the
+		// group. A group rebuilt from a snapshot has no such entry at all and
+		// must end up in the same state.
+		delete(c.subscribers, stream)
 		return nil
 	}
 	rebalance := make(map[string]struct{})
